@@ -162,6 +162,8 @@ pub struct Session<'a, B: SddBuilder<'a>> {
     ids: SddIds<'a>,
     pool: Vec<SddPtr<'a>>,
     nv: usize,
+    /// the variables of the vtree (all of 0..nv unless the vtree has label gaps)
+    labels: Vec<usize>,
     next_slot: usize,
     semantic: bool,
     /// mode c16: (vtree, compression) for the cache-cold twin builder of every operation
@@ -243,9 +245,12 @@ impl<'a, B: SddBuilder<'a>> Session<'a, B> {
         let mut w = weights(mode).to_vec();
         w.extend(if mode == "c05" { [6usize, 6] } else { [0, 0] }); // expr, plan (BottomUpBuilder defaults, also on SDD builders)
         let mut op = OPS[rng.weighted(&w)];
-        let seeding = self.next_slot < self.nv.min(K - 2) && self.next_slot < 6;
+        let seeding = self.next_slot < self.labels.len().min(K - 2) && self.next_slot < 6;
         if seeding {
             op = "var";
+        }
+        if self.labels.len() < self.nv && matches!(op, "cnf" | "expr" | "plan") {
+            op = "and"; // a vtree with label gaps: formulas over all of 0..nv would mention variables the builder does not have
         }
         let b = self.b;
         let nv = self.nv;
@@ -254,7 +259,7 @@ impl<'a, B: SddBuilder<'a>> Session<'a, B> {
         let mut ev = json!({ "ev": op, "a": [] });
         let produced: Option<Result<SddPtr<'a>, String>> = match op {
             "var" => {
-                let (v, p) = if seeding { (self.next_slot, rng.coin()) } else { (rng.below(nv), rng.coin()) };
+                let (v, p) = if seeding { (self.labels[self.next_slot], rng.coin()) } else { (*rng.pick(&self.labels), rng.coin()) };
                 ev["a"] = json!([v, p as u8]);
                 Some(guarded(|| b.var(vl(v), p)))
             }
@@ -301,19 +306,19 @@ impl<'a, B: SddBuilder<'a>> Session<'a, B> {
                 Some(guarded(|| b.ite(x, y, z)))
             }
             "cond" => {
-                let (a, v, p) = (self.arg(rng), rng.below(nv), rng.coin());
+                let (a, v, p) = (self.arg(rng), *rng.pick(&self.labels), rng.coin());
                 ev["a"] = json!([a, v, p as u8]);
                 let x = self.pool[a];
                 Some(guarded(|| b.condition(x, vl(v), p)))
             }
             "exists" => {
-                let (a, v) = (self.arg(rng), rng.below(nv));
+                let (a, v) = (self.arg(rng), *rng.pick(&self.labels));
                 ev["a"] = json!([a, v]);
                 let x = self.pool[a];
                 Some(guarded(|| b.exists(x, vl(v))))
             }
             "compose" => {
-                let (a, v, c) = (self.arg(rng), rng.below(nv), self.arg(rng));
+                let (a, v, c) = (self.arg(rng), *rng.pick(&self.labels), self.arg(rng));
                 ev["a"] = json!([a, v, c]);
                 let (x, y) = (self.pool[a], self.pool[c]);
                 Some(guarded(|| b.compose(x, vl(v), y)))
@@ -520,10 +525,11 @@ fn run<'a, B: SddBuilder<'a>>(
     out: &mut Out,
     sem_hash: &dyn Fn(SddPtr<'a>) -> u128,
     cold: Option<(VTree, bool)>,
+    labels: Vec<usize>,
 ) {
     let mut pool = vec![SddPtr::PtrTrue; K];
     pool[1] = SddPtr::PtrFalse;
-    let mut s = Session { b, ids: SddIds::new(), pool, nv, next_slot: 0, semantic, cold };
+    let mut s = Session { b, ids: SddIds::new(), pool, nv, labels, next_slot: 0, semantic, cold };
     for _ in 0..len {
         if !s.step(rng, mode, out, sem_hash) {
             break;
@@ -541,8 +547,27 @@ pub fn record(args: &Args) {
     let mut rng = Rng::new(seed ^ 0x5dd);
     out.emit(json!({"ev": "init", "kind": "sdd", "nmax": nmax, "k": K, "mode": mode, "seed": seed}));
     for _ in 0..segs {
-        let n = rng.range(nmax.saturating_sub(2).max(2), nmax);
-        let (vt, family) = pick_vtree(&mut rng, n);
+        let mut n = rng.range(nmax.saturating_sub(2).max(2), nmax);
+        let (mut vt, family) = pick_vtree(&mut rng, n);
+        let mut labels: Vec<usize> = (0..n).collect();
+        if matches!(mode.as_str(), "sem" | "c03" | "c11" | "c07") && n + 1 <= nmax && rng.chance(1, 4) {
+            // a vtree whose labels are not contiguous (as the vtree of a CNF with unused variable indices): the builder's
+            // variable universe is 0..=max label, some of which it never sees
+            let n0 = rng.range(n + 1, nmax);
+            let mut pick = rng.perm(n0);
+            pick.truncate(n);
+            pick.sort();
+            fn relabel(t: &VTree, m: &[usize]) -> VTree {
+                if t.is_leaf() {
+                    VTree::new_leaf(VarLabel::new_usize(m[t.extract_leaf().value_usize()]))
+                } else {
+                    VTree::new_node(Box::new(relabel(t.left(), m)), Box::new(relabel(t.right(), m)))
+                }
+            }
+            vt = relabel(&vt, &pick);
+            labels = pick;
+            n = n0;
+        }
         let semantic = mode == "sem";
         // C04 is about the compressing builder; elsewhere compression is switched off in a third of the
         // segments (uncompressed SDDs can blow up: those segments are short and small)
@@ -555,12 +580,12 @@ pub fn record(args: &Args) {
         if semantic {
             let b = SemanticSddBuilder::<{ primes::U64_LARGEST }>::new(vt);
             let bb = &b;
-            run(bb, n, true, &mut rng, &mode, seg_len, &mut out, &|p| bb.cached_semantic_hash(p).value(), None);
+            run(bb, n, true, &mut rng, &mode, seg_len, &mut out, &|p| bb.cached_semantic_hash(p).value(), None, labels);
         } else {
             let cold = if mode == "c16" || mode == "c10" { Some((vt.clone(), compress)) } else { None };
             let mut b = CompressionSddBuilder::new(vt);
             b.set_compression(compress);
-            run(&b, n, false, &mut rng, &mode, seg_len, &mut out, &|_| 0, cold);
+            run(&b, n, false, &mut rng, &mode, seg_len, &mut out, &|_| 0, cold, labels);
         }
     }
     rsdd::verif::set_table_capacity(0);
